@@ -8,7 +8,11 @@ use std::time::Instant;
 
 use serde_json::{json, Map, Value};
 
-pub const VERIF_DIR: &str = "/verif";
+/// Where evidence/ and replays/ are written and known_findings.json is read (default /verif;
+/// background exploration runs redirect it with VH_VERIF_DIR so they never touch committed evidence).
+pub fn verif_dir() -> String {
+    std::env::var("VH_VERIF_DIR").unwrap_or_else(|_| "/verif".to_string())
+}
 
 #[derive(Clone, Copy, Debug, PartialEq, Eq)]
 pub enum Tier {
@@ -261,7 +265,7 @@ pub struct Finding {
 }
 
 pub fn load_findings() -> Vec<Finding> {
-    let p = Path::new(VERIF_DIR).join("known_findings.json");
+    let p = Path::new(&verif_dir()).join("known_findings.json");
     let Ok(b) = std::fs::read(&p) else { return vec![] };
     let v: Value = serde_json::from_slice(&b).expect("known_findings.json is not valid JSON");
     v["findings"]
@@ -298,7 +302,7 @@ pub struct Report {
 }
 
 pub fn write_replay(prop: &str, v: &Violation) -> PathBuf {
-    let dir = Path::new(VERIF_DIR).join("replays");
+    let dir = Path::new(&verif_dir()).join("replays");
     let _ = std::fs::create_dir_all(&dir);
     let body = json!({"property": prop, "class": v.class, "msg": v.msg, "case": v.case});
     let txt = serde_json::to_string_pretty(&body).unwrap();
@@ -392,7 +396,7 @@ pub fn finalize(mut r: Report) -> i32 {
         "violations": unknown_total,
         "machinery_errors": r.shard.machinery_errors.len(),
     });
-    let edir = Path::new(VERIF_DIR).join("evidence");
+    let edir = Path::new(&verif_dir()).join("evidence");
     let _ = std::fs::create_dir_all(&edir);
     std::fs::write(edir.join(format!("{}.json", r.prop)), serde_json::to_string_pretty(&ev).unwrap()).unwrap();
     let _ = writeln!(
